@@ -193,8 +193,11 @@ def category(name: str) -> CharSet:
     return _CATS[name]
 
 
-def from_sre(pattern: str, flags: int = 0) -> Rx:
-    """Regex AST of a stdlib `re` pattern string (parsed, never compiled)."""
+def from_sre(pattern: str, flags: int = 0, mode: Optional[str] = None) -> Rx:
+    """Regex AST of a stdlib `re` pattern string (parsed, never compiled).
+
+    mode None: the pattern itself (a token pattern matched at a position).  mode 'match' | 'fullmatch' |
+    'search': the language of whole subject strings on which that call succeeds."""
     import re._parser as sp  # type: ignore[import-not-found]
     from re import _constants as sc  # type: ignore[attr-defined]
 
@@ -254,7 +257,81 @@ def from_sre(pattern: str, flags: int = 0) -> Rx:
                 raise AnalysisError(f"unsupported regex construct {op} in {pattern!r}")
         return Seq(*parts) if len(parts) != 1 else parts[0]
 
-    return conv(tree)
+    if mode is None:
+        return conv(tree)
+    # ---- subject languages: the set of whole subject strings on which re.<mode>(pattern, subject) succeeds.
+    # Supported around the core: a leading width-1 lookbehind, a trailing width-1 lookahead, ^ / \\A first, $ / \\Z last.
+    items = list(tree)
+    sigma = Rep(Chars(CharSet([(0, 0x10FFFF)])), 0, None)
+    empty = Chars(CharSet())
+
+    def one_char(sub: Any) -> Optional[CharSet]:
+        sub = list(sub)
+        if len(sub) != 1:
+            return None
+        op, av = sub[0]
+        if op is sc.LITERAL:
+            return CharSet([(av, av)])
+        if op is sc.NOT_LITERAL:
+            return CharSet([(av, av)]).negate()
+        if op is sc.IN:
+            return conv_in(av)
+        if op is sc.CATEGORY:
+            return cat(av)
+        if op is sc.ANY:
+            return CharSet.of("\n").negate()
+        return None
+
+    anchored_start = False
+    before: Optional[Tuple[bool, CharSet]] = None  # (positive, set) lookbehind of width 1
+    while items:
+        op, av = items[0]
+        if op is sc.AT and str(av) in ("AT_BEGINNING", "AT_BEGINNING_STRING"):
+            anchored_start = True
+            items.pop(0)
+        elif op in (sc.ASSERT, sc.ASSERT_NOT) and av[0] == -1 and before is None:
+            cs = one_char(av[1])
+            if cs is None:
+                raise AnalysisError(f"unsupported lookbehind (only one character wide is modelled) in {pattern!r}")
+            before = (op is sc.ASSERT, cs)
+            items.pop(0)
+        else:
+            break
+    end_rx: Rx = sigma if mode != "fullmatch" else Eps()
+    while items:
+        op, av = items[-1]
+        if op is sc.AT and str(av) == "AT_END_STRING":
+            end_rx = Eps()
+            items.pop()
+        elif op is sc.AT and str(av) == "AT_END":
+            end_rx = Alt(Eps(), Chars(CharSet.of("\n")))
+            items.pop()
+        elif op in (sc.ASSERT, sc.ASSERT_NOT) and av[0] == 1:
+            cs = one_char(av[1])
+            if cs is None:
+                raise AnalysisError(f"unsupported lookahead (only one character wide is modelled) in {pattern!r}")
+            if mode == "fullmatch":
+                end_rx = Eps() if op is sc.ASSERT_NOT else empty
+            elif op is sc.ASSERT:
+                end_rx = Seq(Chars(cs), sigma)
+            else:
+                end_rx = Alt(Eps(), Seq(Chars(cs.negate()), sigma))
+            items.pop()
+            break
+        else:
+            break
+    core = conv(items)
+    at_zero = mode in ("match", "fullmatch") or anchored_start
+    if at_zero:
+        if before is not None and before[0]:
+            return empty  # nothing precedes position 0
+        return Seq(core, end_rx)
+    if before is None:
+        return Seq(sigma, core, end_rx)
+    pos, cs = before
+    if pos:
+        return Seq(sigma, Chars(cs), core, end_rx)
+    return Seq(Alt(Eps(), Seq(sigma, Chars(cs.negate()))), core, end_rx)
 
 
 # ------------------------------------------------------------------------ NFA
